@@ -223,3 +223,4 @@ PROPS["C16"] = {
 }
 PROPS["C11"]["mismatch_is_failure"] = "the README grammar (evaluated by the model interpreter) and the library disagree on kind or tree of this ASCII text"
 PROPS["C08"]["tables"] = ["T1", "T2", "T3", "T4", "T5"]
+PROPS["C03"]["props"] = PROPS["C03"]["props"] + ["Props/C03d.v"]   # value-level agreement, Henum discharged by C01d
